@@ -55,42 +55,49 @@ package memefish
 // One-line helpers
 
 // @ func memefish.(*Lexer).peek
+// @   replay l.Buffer
 // @   props C03 C13
 // @   requires l != nil && l.File != nil && 0 <= l.pos + i && l.pos + i < len(l.Buffer)
 // @   ensures result == l.Buffer[l.pos + i]
 // @   modifies nothing
 
 // @ func memefish.(*Lexer).peekOk
+// @   replay l.Buffer
 // @   props C03 C13
 // @   requires l != nil && l.File != nil
 // @   ensures result == (l.pos + i < len(l.Buffer))
 // @   modifies nothing
 
 // @ func memefish.(*Lexer).peekIs
+// @   replay l.Buffer
 // @   props C03 C13
 // @   requires l != nil && l.File != nil && 0 <= l.pos + i
 // @   ensures result == (l.pos + i < len(l.Buffer) && l.Buffer[l.pos + i] == c)
 // @   modifies nothing
 
 // @ func memefish.(*Lexer).skip
+// @   replay l.Buffer
 // @   props C03 C13
 // @   requires LexInv(l) && l.pos < len(l.Buffer)
 // @   ensures l.pos == old(l.pos) + 1 && result == l.Buffer[old(l.pos)]
 // @   modifies l.pos
 
 // @ func memefish.(*Lexer).skipN
+// @   replay l.Buffer
 // @   props C03 C13
 // @   requires LexInv(l) && 0 <= n && l.pos + n <= len(l.Buffer)
 // @   ensures l.pos == old(l.pos) + n
 // @   modifies l.pos
 
 // @ func memefish.(*Lexer).slice
+// @   replay l.Buffer
 // @   props C03 C13
 // @   requires LexInv(l) && 0 <= start && start <= end && l.pos + start <= len(l.Buffer)
 // @   ensures isSub(result, l.Buffer, l.pos + start, min(l.pos + end, len(l.Buffer)))
 // @   modifies nothing
 
 // @ func memefish.(*Lexer).eof
+// @   replay l.Buffer
 // @   props C03 C13
 // @   requires l != nil && l.File != nil
 // @   ensures result == (l.pos >= len(l.Buffer))
@@ -101,6 +108,7 @@ package memefish
 // of the constructors and is checked at each call site.
 
 // @ func memefish.(*Lexer).errorf
+// @   replay l.Buffer
 // @   props C03 C09
 // @   requires LexInv(l)
 // @   ensures LexInv(l)
@@ -109,6 +117,7 @@ package memefish
 // @   modifies l.File.lines
 
 // @ func memefish.(*Lexer).errorfAtPosition
+// @   replay l.Buffer
 // @   props C03 C09
 // @   requires FileInv(l)
 // @   requires[C03,C09,C20] errpos: validRange(l, pos, end)
@@ -118,12 +127,14 @@ package memefish
 // @   modifies l.File.lines
 
 // @ func memefish.(*Lexer).panicf
+// @   replay l.Buffer
 // @   props C03 C09
 // @   requires LexInv(l)
 // @   panics always
 // @   modifies l.File.lines
 
 // @ func memefish.(*Lexer).panicfAtPosition
+// @   replay l.Buffer
 // @   props C03 C09
 // @   requires FileInv(l)
 // @   requires[C03,C09,C20] errpos: validRange(l, pos, end)
@@ -134,6 +145,7 @@ package memefish
 // Trivia
 
 // @ func memefish.(*Lexer).skipSpaces
+// @   replay l.Buffer
 // @   props C03 C13
 // @   requires LexInv(l)
 // @   ensures LexInv(l) && old(l.pos) <= l.pos
@@ -144,6 +156,7 @@ package memefish
 // @   loop 0 decreases len(l.Buffer) - l.pos
 
 // @ func memefish.(*Lexer).skipCommentUntil
+// @   replay l.Buffer
 // @   props C03 C13
 // @   requires LexInv(l) && len(end) >= 1 && len(end) <= 2 && 0 <= opener && l.pos + opener <= len(l.Buffer)
 // @   ensures LexInv(l) && old(l.pos) + opener <= l.pos
@@ -162,6 +175,7 @@ package memefish
 // @ spec blockCommentAt(buf, p) = p + 1 < len(buf) && buf[p] == '/' && buf[p + 1] == '*'
 
 // @ func memefish.(*Lexer).skipComment
+// @   replay l.Buffer
 // @   props C03 C13
 // @   requires LexInv(l)
 // @   ensures LexInv(l) && old(l.pos) <= l.pos
@@ -181,6 +195,7 @@ package memefish
 // @   modifies nothing
 
 // @ func memefish.(*Lexer).peekDelimiter
+// @   replay l.Buffer
 // @   props C03 C13 C14
 // @   requires LexInv(l) && l.pos < len(l.Buffer) && (l.Buffer[l.pos] == '"' || l.Buffer[l.pos] == 39)
 // @   ensures (len(result) == 1 || len(result) == 3) && l.pos + len(result) <= len(l.Buffer)
@@ -192,6 +207,7 @@ package memefish
 
 // consumeNumber is entered on a digit, or on '.' followed by a digit.
 // @ func memefish.(*Lexer).consumeNumber
+// @   replay l.Buffer
 // @   props C03 C13
 // @   requires LexInv(l) && l.pos < len(l.Buffer)
 // @   requires isDigit(l.Buffer[l.pos]) || (l.Buffer[l.pos] == '.' && l.pos + 1 < len(l.Buffer) && isDigit(l.Buffer[l.pos + 1]))
@@ -244,6 +260,7 @@ package memefish
 // consumeQuotedContent is entered with l.pos at the opening delimiter q (1 or 3 quote bytes).
 // On success the literal is closed by q and l.pos is just past the closing delimiter.
 // @ func memefish.(*Lexer).consumeQuotedContent
+// @   replay l.Buffer
 // @   props C03 C13
 // @   requires LexInv(l) && (len(q) == 1 || len(q) == 3) && l.pos + len(q) <= len(l.Buffer)
 // @   ensures LexInv(l) && old(l.pos) + len(q) <= l.pos
@@ -275,6 +292,7 @@ package memefish
 // @ spec atQuote(l) = LexInv(l) && l.pos < len(l.Buffer) && (l.Buffer[l.pos] == '"' || l.Buffer[l.pos] == 39)
 
 // @ func memefish.(*Lexer).consumeRawBytes
+// @   replay l.Buffer
 // @   props C03 C13
 // @   requires atQuote(l)
 // @   ensures LexInv(l) && old(l.pos) < l.pos && (l.Token.Kind == "<bytes>" || l.Token.Kind == "<bad>") && (!noPanic ==> l.Token.Kind != "<bad>")
@@ -282,6 +300,7 @@ package memefish
 // @   modifies l.pos, l.Token.Kind, l.Token.AsString, l.File.lines
 
 // @ func memefish.(*Lexer).consumeBytes
+// @   replay l.Buffer
 // @   props C03 C13
 // @   requires atQuote(l)
 // @   ensures LexInv(l) && old(l.pos) < l.pos && (l.Token.Kind == "<bytes>" || l.Token.Kind == "<bad>") && (!noPanic ==> l.Token.Kind != "<bad>")
@@ -289,6 +308,7 @@ package memefish
 // @   modifies l.pos, l.Token.Kind, l.Token.AsString, l.File.lines
 
 // @ func memefish.(*Lexer).consumeRawString
+// @   replay l.Buffer
 // @   props C03 C13
 // @   requires atQuote(l)
 // @   ensures LexInv(l) && old(l.pos) < l.pos && (l.Token.Kind == "<string>" || l.Token.Kind == "<bad>") && (!noPanic ==> l.Token.Kind != "<bad>")
@@ -296,6 +316,7 @@ package memefish
 // @   modifies l.pos, l.Token.Kind, l.Token.AsString, l.File.lines
 
 // @ func memefish.(*Lexer).consumeString
+// @   replay l.Buffer
 // @   props C03 C13
 // @   requires atQuote(l)
 // @   ensures LexInv(l) && old(l.pos) < l.pos && (l.Token.Kind == "<string>" || l.Token.Kind == "<bad>") && (!noPanic ==> l.Token.Kind != "<bad>")
@@ -320,6 +341,7 @@ package memefish
 // @ spec dotCtx(k) = k == "<ident>" || k == "<param>" || k == ")" || k == "]"
 
 // @ func memefish.(*Lexer).consumeToken
+// @   replay l.Buffer
 // @   props C03 C13
 // @   let p = l.pos
 // @   let b0 = l.Buffer[l.pos]
@@ -359,6 +381,7 @@ package memefish
 // @   loop 2 decreases len(l.Buffer) - l.pos - i
 
 // @ func memefish.(*Lexer).consumeFieldToken
+// @   replay l.Buffer
 // @   props C03 C13
 // @   requires LexInv(l)
 // @   ensures[C14] field: old(l.pos) < len(l.Buffer) && isIdentPart(l.Buffer[old(l.pos)]) ==> l.Token.Kind == "<ident>" && identRun(l.Buffer, old(l.pos), l.pos) && isSub(l.Token.AsString, l.Buffer, old(l.pos), l.pos)
@@ -385,6 +408,7 @@ package memefish
 // @ spec triviaEnd(l, p0) = ite(len(l.Token.Comments) == 0, p0, l.Token.Comments[len(l.Token.Comments) - 1].End)
 
 // @ func memefish.(*Lexer).nextToken
+// @   replay l.Buffer
 // @   props C03 C13
 // @   requires LexInv(l)
 // @   ensures LexInv(l) && l.Token.End == l.pos && old(l.pos) <= l.Token.Pos && l.Token.Pos <= l.Token.End
@@ -406,6 +430,7 @@ package memefish
 // @   loop 0 decreases len(l.Buffer) - l.pos
 
 // @ func memefish.(*Lexer).Clone
+// @   replay l.Buffer
 // @   props C03 C10 C18
 // @   requires l != nil
 // @   ensures result != nil && fresh(result) && result.pos == l.pos && result.File == l.File && result.Token == l.Token && result.lastTokenKind == l.lastTokenKind && result.dotIdent == l.dotIdent
@@ -414,6 +439,7 @@ package memefish
 // NextToken: the public entry point. Never panics; a lexical error is returned as *Error (C03).
 // On success it has the postcondition of nextToken(false).
 // @ func memefish.(*Lexer).NextToken
+// @   replay l.Buffer
 // @   props C03 C13
 // @   requires LexInv(l)
 // @   ensures[C03] typed: err == nil || typeIs(err, "*memefish.Error")
